@@ -875,7 +875,10 @@ func (ts *TestScript) condition(cond string) (bool, error) {
 		return cond == runtime.GOARCH, nil
 	case strings.HasPrefix(cond, "exec:"):
 		prog := cond[len("exec:"):]
-		ok := execCache.Do(prog, func() any {
+		// The answer depends on the script's own PATH (which Setup or an env
+		// line may have changed), so it is part of the cache key: otherwise
+		// scripts running in the same process see each other's result.
+		ok := execCache.Do([2]string{prog, ts.Getenv("PATH")}, func() any {
 			_, err := execpath.Look(prog, ts.Getenv)
 			return err == nil
 		}).(bool)
